@@ -711,21 +711,26 @@ Definition trip_eqb (a b : N * N * N) : bool :=
 Definition all_outs (st : dstate) (ls : list (label * option (N * N) * option (list (N * (N * N * bool))))) : list out :=
   match run st (map (fun x => fst (fst x)) ls) with ROk _ os => os | RFail _ _ => [] end.
 
+(* records are identified by their serial number (a stream id can have a second, reset-only record after the
+   first was unlinked); km maps serial -> stream id for the comparison with the wire *)
+Fixpoint lookup (km : list (N * N)) (k : N) : N :=
+  match km with [] => k | (a, b) :: km' => if a =? k then b else lookup km' k end.
+
 Definition case_t : Type :=
-  N * list (label * option (N * N) * option (list (N * (N * N * bool)))) * option (N * list (N * (N * N))) * option (list (N * N * N)).
+  N * list (N * N) * list (label * option (N * N) * option (list (N * (N * N * bool)))) * option (N * list (N * (N * N))) * option (list (N * N * N)).
 
 Definition check_datapath (c : case_t) : bool :=
-  let '(chain, ls, fin, wd) := c in
+  let '(chain, km, ls, fin, wd) := c in
   let st0 := init_state chain in
   (check_run st0 0 ls =? 0) &&
   match run_state st0 ls with Some st => final_ok st fin | None => false end &&
   match wd with
   | None => true
-  | Some l => is_prefix trip_eqb l (wire_data (all_outs st0 ls))
+  | Some l => is_prefix trip_eqb l (map (fun x : N * N * N => let '(s, n, d) := x in (lookup km s, n, d)) (wire_data (all_outs st0 ls)))
   end.
 
 Definition diag_datapath (c : case_t) : N :=
-  let '(chain, ls, fin, wd) := c in check_run (init_state chain) 0 ls.
+  let '(chain, km, ls, fin, wd) := c in check_run (init_state chain) 0 ls.
 
 (* receive side lock-step: labels with the observed API result
    (0 deliver k n: kind 0 head 1 info 2 data 3 trailers, n = data length; 1 pending; 2 none; 3 err; 4 bool) *)
